@@ -16,7 +16,6 @@ import (
 	"unsafe"
 
 	"golang.org/x/tools/go/ssa"
-	"golang.org/x/tools/internal/typeparams"
 )
 
 // If the target program panics, the interpreter panics with this type.
@@ -126,8 +125,10 @@ func asInt64(x value) int64 {
 		return int64(x)
 	case uintptr:
 		return int64(x)
+	case symInt:
+		panic(unsupported("a symbolic integer (" + truncStr(x.t.String(), 80) + ") is used where a concrete one is required (index, length, shift count)"))
 	}
-	panic(fmt.Sprintf("cannot convert %T to int64", x))
+	panic(unsupported(fmt.Sprintf("cannot convert %T to int64", x)))
 }
 
 // asUint64 converts x, which must be an unsigned integer, to a uint64
@@ -337,7 +338,17 @@ func lookup(instr *ssa.Lookup, x, idx value) value {
 // binop implements all arithmetic and logical binary operators for
 // numeric datatypes and strings.  Both operands must have identical
 // dynamic type.
-func binop(op token.Token, t types.Type, x, y value) value {
+func binop(i *interpreter, op token.Token, t types.Type, x, y value) value {
+	if isSymOrStr(x) || isSymOrStr(y) {
+		return i.symBinop(op, x, y)
+	}
+	if (op == token.EQL || op == token.NEQ) && (containsSym(x) || containsSym(y)) {
+		e := i.symEquals(t, x, y)
+		if op == token.NEQ {
+			e = i.tc.Not(e)
+		}
+		return i.tc.mkBool(e)
+	}
 	switch op {
 	case token.ADD:
 		switch x.(type) {
@@ -838,7 +849,10 @@ func eqnil(t types.Type, x, y value) bool {
 	return equals(t, x, y)
 }
 
-func unop(instr *ssa.UnOp, x value) value {
+func unop(i *interpreter, instr *ssa.UnOp, x value) value {
+	if isSymOrStr(x) {
+		return i.symUnop(instr.Op, x)
+	}
 	switch instr.Op {
 	case token.ARROW: // receive
 		v, ok := <-x.(chan value)
@@ -883,7 +897,7 @@ func unop(instr *ssa.UnOp, x value) value {
 			return -x
 		}
 	case token.MUL:
-		return load(typeparams.MustDeref(instr.X.Type()), x.(*value))
+		return load(mustDeref(instr.X.Type()), x.(*value))
 	case token.NOT:
 		return !x.(bool)
 	case token.XOR:
@@ -968,16 +982,37 @@ func callBuiltin(caller *frame, callpos token.Pos, fn *ssa.Builtin, args []value
 			}
 			return arg0
 		}
+		if _, ok := args[1].(symStr); ok {
+			panic(unsupported("append([]byte, opaque string...)"))
+		}
 		// append([]T, ...[]T) []T
-		return append(args[0].([]value), args[1].([]value)...)
+		// (elements of aggregate type are copied: the stock interpreter aliased them)
+		src := args[1].([]value)
+		dst := args[0].([]value)
+		for _, e := range src {
+			dst = append(dst, copyVal(e))
+		}
+		return dst
 
 	case "copy": // copy([]T, []T) int or copy([]byte, string) int
 		src := args[1]
 		if _, ok := src.(string); ok {
 			params := fn.Type().(*types.Signature).Params()
-			src = conv(params.At(0).Type(), params.At(1).Type(), src)
+			src = conv(caller.i, params.At(0).Type(), params.At(1).Type(), src)
 		}
-		return copy(args[0].([]value), src.([]value))
+		d, s := args[0].([]value), src.([]value)
+		n := len(d)
+		if len(s) < n {
+			n = len(s)
+		}
+		if n > 0 && len(s) > 0 && len(d) > 0 && &d[0] != &s[0] {
+			tmp := make([]value, n)
+			for k := 0; k < n; k++ {
+				tmp[k] = copyVal(s[k])
+			}
+			copy(d, tmp)
+		}
+		return n
 
 	case "close": // close(chan T)
 		close(args[0].(chan value))
@@ -1155,7 +1190,13 @@ func widen(x value) value {
 // conv converts the value x of type t_src to type t_dst and returns
 // the result.
 // Possible cases are described with the ssa.Convert operator.
-func conv(t_dst, t_src types.Type, x value) value {
+func conv(i *interpreter, t_dst, t_src types.Type, x value) value {
+	if isSymOrStr(x) {
+		if b, ok := t_dst.Underlying().(*types.Basic); ok {
+			return i.symConv(b, x)
+		}
+		panic(unsupported(fmt.Sprintf("conversion of symbolic %T to %s", x, t_dst)))
+	}
 	ut_src := t_src.Underlying()
 	ut_dst := t_dst.Underlying()
 
@@ -1201,8 +1242,12 @@ func conv(t_dst, t_src types.Type, x value) value {
 		case types.Byte:
 			x := x.([]value)
 			b := make([]byte, 0, len(x))
-			for i := range x {
-				b = append(b, x[i].(byte))
+			for k := range x {
+				c, ok := x[k].(byte)
+				if !ok {
+					return i.newSymStr("string(bytes)")
+				}
+				b = append(b, c)
 			}
 			return string(b)
 
@@ -1432,7 +1477,7 @@ func min(x, y value) value {
 	}
 
 	// return (y < x) ? y : x
-	if binop(token.LSS, nil, y, x).(bool) {
+	if binop(nil, token.LSS, nil, y, x).(bool) {
 		return y
 	}
 	return x
@@ -1447,7 +1492,7 @@ func max(x, y value) value {
 	}
 
 	// return (y > x) ? y : x
-	if binop(token.GTR, nil, y, x).(bool) {
+	if binop(nil, token.GTR, nil, y, x).(bool) {
 		return y
 	}
 	return x
